@@ -39,7 +39,7 @@ from core import impl as I
 from core.common import close, HARNESS, REPO
 
 ID = "C10"
-LEAN_MODULES = ["AcnProofs.C10"]
+LEAN_MODULES = ["AcnProofs.C10", "AcnProofs.C10Stations", "AcnProofs.C10Shift", "AcnProofs.C10Sessions", "AcnProofs.C10Rampdown"]
 DRIVER = "drv_C01"
 REQUIRED_THEOREMS = [
     "Acn.C10.feasible_perm_constraints", "Acn.C10.feasible_perm_stations", "Acn.C10.densify_equivariant",
@@ -54,6 +54,17 @@ REQUIRED_THEOREMS = [
     "Acn.C10.run_perm_sessions_sorted", "Acn.C10.run_equivariant_stations_dict",
     "Acn.C10.run_equivariant_stations_sorted", "Acn.C10.run_equivariant_stations_uncontrolled",
     "Acn.C10.run_shift_sorted",
+    # AcnProofs/C10Stations.lean: raising runs, uninterrupted_charging
+    "Acn.C10.run_equivariant_stations_raise", "Acn.C10.schedEquivariantE_of_equivariant",
+    "Acn.C10.run_equivariant_stations_sorted_any", "Acn.C10.run_equivariant_stations_sorted_uninterrupted",
+    "Acn.C10.run_equivariant_stations_uncontrolled_any",
+    # AcnProofs/C10Shift.lean: uninterrupted_charging, max_recompute != None for the sorted algorithms
+    "Acn.C10.run_shift_sorted_any", "Acn.C10.run_shift_anchored_zero", "Acn.C10.run_shift_aligned_zero",
+    "Acn.C10.run_shift_sorted_recompute", "Acn.C10.shOut_of_shEquiv", "Acn.C10.run_shift_sorted_late",
+    # AcnProofs/C10Sessions.lean: raising runs under a permuted listing
+    "Acn.C10.run_perm_sessions_raise", "Acn.C10.run_perm_sessions_sorted_raise",
+    # AcnProofs/C10Rampdown.lean: the stateful rampdown estimator under a station permutation
+    "Acn.C10.runSt_equivariant_stations_rampdown",
 ]
 BUDGET = {"quick": 200, "thorough": 1600, "search": 1200}
 TRUSTED = ["CPython heapq / sorted (stable) / dict insertion order; numpy `@`, `sum`, `abs` (a changed summation "
@@ -76,9 +87,22 @@ ASSUMPTIONS = ["theorems: exact arithmetic over a linear ordered field; Valid la
                "shift with max_recompute = m: proved when something is due in period 0 (run_shift_anchored; the "
                "generator anchors scripted scenarios with an event at 0) or m | k (run_shift_aligned); false otherwise "
                "(counter-example after run_shift_core)",
-               "stations x sorted algorithms (run_equivariant_stations_sorted): interruptible, no rampdown estimator, no "
-               "view of the run with a tie in the sort key; uninterrupted_charging=True is checked on implementation "
-               "pairs only",
+               "stations x sorted algorithms: no view of the run with a tie in the key that decides the order of that mode — "
+               "the sort key when interruptible (run_equivariant_stations_sorted), remaining_time with "
+               "uninterrupted_charging (run_equivariant_stations_sorted_uninterrupted: ties of the main key are then "
+               "broken by the remaining-time order in every registration order); with the rampdown estimator the same "
+               "on the sessions as apply_upper_bound_estimate leaves them (runSt_equivariant_stations_rampdown)",
+               "raising runs x stations: an abort by update_pilots leaves the stations BEFORE the offender charged, and "
+               "'before' is the registration order: related are iteration, queue, histories, pilot / rate matrices, peak, "
+               "invocations, occupancy (AbortEquiv), not the EV records / EVSE.current_pilot / draw count; every other "
+               "abort leaves fully related states (run_equivariant_stations_raise, run_perm_sessions_raise)",
+               "shift x rampdown estimator: Interface.last_applied_pilot_signals is {} while iteration - 1 <= 0 whatever "
+               "was applied in period 0 (DESIGN §8), so the shift relation is claimed for the estimator only when the "
+               "first event is in period >= 1",
+               "shift x sorted algorithms with max_recompute = m: they answer all-zero rows while idle, which leaves the "
+               "zero pilot matrix unchanged (SchedIdleZ); outputs coincide from the first event on for EVERY shift "
+               "(run_shift_sorted_late: both runs are shifts of the run of the anchored scenario); the invocation "
+               "periods before the first event are each run's own (compared from the first event on)",
                "JSON round trip (json_net / json_sim pairs): implementation pairs only — the simulator model has no "
                "JSON text, C09 owns the codec; claimed here: a network or a not-yet-run simulator restored with "
                "from_json(to_json()) is the same input (same per-station / per-session results)"]
@@ -93,6 +117,15 @@ RULE = ("scenario = 1-6 stations with non-sorted ids, mixed EVSE classes, voltag
         "RoundRobin(any sort) (2, mostly finite-rate EVSEs: it walks a continuous one in 0.1 A steps); every 5th "
         "case dyadic (phase 0, coefficients ±1, dyadic pilots and limits: bitwise comparison); 8% malformed; per "
         "case random permutations of stations, constraints, sessions, recomputes and a shift k in 0..30; three "
+        "`abort` stream (2/24): runs that abort while cars are charging on 2-6 stations — a scripted schedule over all "
+        "stations with one or two pilots the EVSE refuses (update_pilots raises in the middle of its station loop), a "
+        "scheduler that raises, a schedule for an unknown station, a ragged schedule, or a REAL sorting-based algorithm "
+        "on DeadbandEVSEs under a binding limit (hands out a pilot inside the deadband); every registration order when "
+        "<= 3 stations; the states AT THE ABORT are compared (fully, or — update_pilots aborts — on everything "
+        "update_pilots does not write); 30% of the sorted cases run with the stateful rampdown estimator "
+        "(estimate_max_rate=True, SimpleRampdown; feature estimate:car_draws_less_than_pilot when it bites); "
+        "with uninterrupted_charging the tie that matters is a tie of remaining_time (recorded per invocation; features "
+        "rt:tied / rt:distinct), ties of the main key are judged; "
         "targeted streams for the sorted algorithms: `tight` (2/24) = uninterrupted_charging on finite-rate EVSEs "
         "(non-zero minimum pilot), 3-4 cars at once, aggregate limit below the sum of the minima, registration "
         "order unrelated to remaining time, any sort order; `threshold` (2/24) = plain FCFS, mixed minimum pilots / "
@@ -436,6 +469,71 @@ def gen_contested(rng, algo):
     return sc
 
 
+def gen_abort(rng):
+    """Runs that ABORT while cars are charging, on >= 2 (mostly 3-5) stations — the state at the abort is what the
+    pair relations are judged on (run_equivariant_stations_raise, run_perm_sessions_raise):
+      invalid_rate            a scripted schedule over ALL stations (shuffled dict order, mostly non-zero valid pilots)
+                              with one (20%: two) pilot(s) the EVSE does not accept: update_pilots raises in the middle of
+                              its station loop, stations before the offender have charged;
+      sched_fail / sched_unknown_station / ragged
+                              the scheduler raises / _update_schedules raises KeyError / InvalidScheduleError;
+      deadband                a REAL sorting-based algorithm on a site with DeadbandEVSEs under a binding limit: it hands
+                              out a pilot inside the deadband sooner or later and update_pilots raises."""
+    mode = rng.choice(["invalid_rate", "invalid_rate", "invalid_rate", "sched_fail", "sched_unknown_station", "ragged",
+                       "deadband", "deadband"])
+    if mode == "deadband":
+        algo = rng.choice(["fcfs", "edf", "llf", "lrpt", "lcfs"])
+        sc = gen_contested(rng, algo)
+        for st in rng.sample(sc["stations"], rng.choice([1, 1, 2])):
+            st["kind"] = {"t": "deadband", "db": rng.choice([6, 8]), "max": 32}
+        sc["constraints"][0]["limit"] = rng.choice([13.7, 20.3, 26.9, 35.3])
+        sc["sched"].pop("opts", None)
+        sc["targeted"] = "abort"
+        sc["abort"] = mode
+        return sc
+    for _ in range(40):
+        sc = gen_scenario(rng, None)
+        if len(sc["stations"]) >= 2 and len(sc["sessions"]) >= 2 and sc["sched"]["type"] == "scripted":
+            break
+    sts = sc["stations"]
+    ss = sc["sessions"]
+    lo = min(x["arrival"] for x in ss)
+    hi = max(x["departure"] for x in ss)
+    # a period in which as many cars as possible are plugged in, not the very first one (something has been delivered)
+    cand = sorted(range(lo, hi), key=lambda t_: (-sum(1 for x in ss if x["arrival"] <= t_ < x["departure"]), rng.random()))
+    t = cand[0] if len(cand) == 1 or rng.random() < 0.6 else rng.choice(cand[:3])
+    script = [e for e in sc["sched"].get("script", []) if e["t"] != t]
+    if mode == "sched_fail":
+        script.append({"t": t, "fail": True})
+    else:
+        n = rng.choice([1, 1, 2, 3])
+        order = list(sts)
+        rng.shuffle(order)
+        rows = []
+        for st in order:
+            row = []
+            for _j in range(n):
+                v = S.valid_pilot(rng, st["kind"])
+                if v == 0 and rng.random() < 0.8:
+                    v = S.valid_pilot(rng, st["kind"])
+                row.append(v)
+            rows.append([st["id"], row])
+        if mode == "invalid_rate":
+            for j in rng.sample(range(len(rows)), 2 if (len(rows) > 2 and rng.random() < 0.2) else 1):
+                kind = next(st["kind"] for st in sts if st["id"] == rows[j][0])
+                rows[j][1][0] = S.invalid_pilot(rng, kind)
+        elif mode == "sched_unknown_station":
+            rows.insert(rng.randrange(len(rows) + 1), ["nowhere", [0.0] * n])
+        else:
+            rows[rng.randrange(len(rows))][1].append(0.0)
+        script.append({"t": t, "sched": rows})
+    script.sort(key=lambda e: e["t"])
+    sc["sched"]["script"] = script
+    sc["targeted"] = "abort"
+    sc["abort"] = mode
+    return sc
+
+
 def _first_event(sc):
     ts = [s["arrival"] for s in sc["sessions"]] + list(sc["recomputes"])
     return min(ts) if ts else None
@@ -458,7 +556,9 @@ def gen_case(rng, i=0, tier="quick"):
     ties = False
     malformed = False
     targeted = None
-    if r in (0, 1, 2, 3, 4, 5, 6):
+    if r in (4, 5):
+        algo, targeted = "x", "abort"
+    elif r in (0, 1, 2, 3, 6):
         algo = None
         malformed = (r == 6) and rng.random() < 0.8
     elif r in (7, 8):
@@ -484,9 +584,14 @@ def gen_case(rng, i=0, tier="quick"):
         algo, targeted = rng.choice(["llf", "lrpt", "rr:llf", "rr:lrpt", _any_sorted(rng), _any_sorted(rng)]), "contested"
     else:
         algo = rng.choice(["lrpt", "lrpt", "llf", "lcfs"])
-    if targeted == "contested":
+    if targeted == "abort":
+        exact = False
+        sc = gen_abort(rng)
+    elif targeted == "contested":
         exact = False
         sc = gen_contested(rng, algo)
+        if rng.random() < 0.25:
+            sc["sched"].setdefault("opts", {})["estimate"] = True
     elif targeted:
         exact = False
         sc = gen_targeted(rng, targeted)
@@ -494,11 +599,16 @@ def gen_case(rng, i=0, tier="quick"):
         sc = gen_scenario(rng, algo, exact=exact and not malformed, ties=ties, malformed=malformed)
         if algo in SORTED_TYPES and rng.random() < 0.35:
             sc["sched"]["opts"] = {"uninterrupted": True}
+        if algo in SORTED_TYPES and rng.random() < 0.3:
+            # the stateful rampdown estimator (runSt_equivariant_stations_rampdown)
+            sc["sched"].setdefault("opts", {})["estimate"] = True
     var = {"stations": _perm(rng, len(sc["stations"])), "constraints": _perm(rng, len(sc["constraints"])),
            "sessions": _perm(rng, len(sc["sessions"])), "recomputes": _perm(rng, len(sc["recomputes"])),
            "shift": rng.choice([0, 1, 1, 2, 3, 5, 7, 13, 30, rng.randint(0, 30)])}
     case = {"sc": sc, "var": var, "exact": bool(exact and not malformed), "ties": ties}
-    if targeted and len(sc["stations"]) <= (3 if targeted == "contested" else 4):
+    if targeted == "tight" and rng.random() < 0.3:
+        sc["sched"]["opts"]["estimate"] = True
+    if targeted and len(sc["stations"]) <= (3 if targeted in ("contested", "abort") else 4):
         case["allperms"] = True          # every registration order is compared, per station id
     if tier == "thorough" or i % 8 == 0:
         case["hashseeds"] = [1, 2, 3]
@@ -642,7 +752,13 @@ def make_scheduler(sc, hooks):
     fn = {"fcfs": A.first_come_first_served, "lcfs": A.last_come_first_served, "edf": A.earliest_deadline_first,
           "llf": A.least_laxity_first, "lrpt": A.largest_remaining_processing_time}[so[0]]
     cls = A.RoundRobin if so[1] else A.SortedSchedulingAlgo
-    inner = cls(fn, uninterrupted_charging=bool(opts.get("uninterrupted")))
+    if opts.get("estimate"):
+        # the stateful rampdown estimator (one SimpleRampdown object for the whole run, default thresholds)
+        from acnportal.algorithms import SimpleRampdown
+        inner = cls(fn, estimate_max_rate=True, max_rate_estimator=SimpleRampdown(),
+                    uninterrupted_charging=bool(opts.get("uninterrupted")))
+    else:
+        inner = cls(fn, uninterrupted_charging=bool(opts.get("uninterrupted")))
     inner.max_recompute = sc.get("max_recompute")
     algo = S.WrappedAlgo(inner, hooks)
     algo.max_recompute = sc.get("max_recompute")
@@ -689,7 +805,7 @@ def build_sim(sc):
         # what the TRUE sort keys are made of, per invocation, in the order the sessions are handed over
         keys.append([int(interface.current_time),
                      [[s_.session_id, s_.station_id, float(s_.arrival), float(s_.estimated_departure),
-                       float(s_.remaining_demand)] for s_ in sessions]])
+                       float(s_.remaining_demand), int(s_.remaining_time)] for s_ in sessions]])
 
     hooks = S.Hooks(before=record if sort_of(sc.get("sched")) else None, after=probe)
     algo = make_scheduler(sc, hooks)
@@ -874,6 +990,9 @@ def compare(case, obs, model):
 # ------------------------------------------------------------------------------- oracle
 
 
+PILOT_ERRS = ("InvalidRate", "ValueError")      # what EVSE.set_pilot raises (evse.py: InvalidRateError; ValueError of a charge)
+
+
 def _eq(a, b, exact):
     return (a == b) if exact else close(a, b)
 
@@ -904,9 +1023,17 @@ def _shift_events(evs, k):
 def relation(base, v, *, exact, k=0, same_order=False, error_partial=False, check_rows=True, inv_from=None):
     """differences between a base run and a variant run under the relabelling (list of strings)"""
     d = []
-    if base["err"] != v["err"]:
+    # `update_pilots` stops at the FIRST offending station in registration order: which of the two set_pilot errors
+    # comes out may depend on that order when two stations offend differently (AcnProofs/C10Stations.lean, (b))
+    both_pilot = error_partial and base["err"] in PILOT_ERRS and v["err"] in PILOT_ERRS
+    if base["err"] != v["err"] and not both_pilot:
         d.append(f"error class: {base['err']!r} vs {v['err']!r}")
         return d
+    # aborted by update_pilots under a changed registration order: the stations before the offender have charged.
+    # Related all the same (AbortEquiv): iteration, queue, histories, pilot matrix, rate matrix, peak, invocations,
+    # occupancy — everything update_pilots does not write; NOT related: EV records, EVSE.current_pilot, draws.
+    # Every other abort (scheduler, _update_schedules, events of an invalid layout) leaves fully related states.
+    pilot_abort = error_partial and base["err"] in PILOT_ERRS
     if base["iter"] + k != v["iter"] and not (base["iter"] == 0 and base["err"] is None and not base["events"]):
         d.append(f"iteration: {base['iter']} (+{k}) vs {v['iter']}")
     ev_b, ev_v = base["events"], _shift_events(v["events"], k)
@@ -924,8 +1051,6 @@ def relation(base, v, *, exact, k=0, same_order=False, error_partial=False, chec
         d.append(f"pending events: {base['pending']} vs {v['pending']}")
     if check_rows:
         _rows("pilot_signals", base["pilots"], v["pilots"], exact, d, k)
-    if error_partial and base["err"] is not None:
-        return d          # a raise inside update_pilots leaves the stations before the offender charged
     _rows("charging_rates", base["rates"], v["rates"], exact, d, k)
     lo = 0 if inv_from is None else inv_from
     inv_b = [t for t in base["invoked"] if t >= lo]
@@ -940,19 +1065,21 @@ def relation(base, v, *, exact, k=0, same_order=False, error_partial=False, chec
         d.append(f"peak: {base['peak']!r} vs {v['peak']!r}")
     if set(base["evs"]) != set(v["evs"]):
         d.append("session sets differ")
-    else:
+    elif not pilot_abort:
         for sid, e in base["evs"].items():
             for f in ("delivered", "rate", "charge", "power"):
                 if not _eq(e[f], v["evs"][sid][f], exact):
                     d.append(f"session {sid} {f}: {e[f]!r} vs {v['evs'][sid][f]!r}")
     for s in base["evse_pilot"]:
+        if pilot_abort:
+            break
         if s in v["evse_pilot"] and not _eq(base["evse_pilot"][s], v["evse_pilot"][s], exact):
             d.append(f"EVSE {s} current_pilot: {base['evse_pilot'][s]!r} vs {v['evse_pilot'][s]!r}")
     if base["occ_final"] != v["occ_final"]:
         d.append(f"final occupancy: {base['occ_final']} vs {v['occ_final']}")
     if base["occ"] != v["occ"][k:] or any(any(x is not None for x in row.values()) for row in v["occ"][:k]):
         d.append("occupancy log differs")
-    if base["noise_draws"] != v["noise_draws"]:
+    if base["noise_draws"] != v["noise_draws"] and not pilot_abort:
         d.append(f"noise draws consumed: {base['noise_draws']} vs {v['noise_draws']}")
     return d
 
@@ -962,6 +1089,14 @@ def _idle_ok(sc):
     min_rate > 0 refuses pilot 0 (DESIGN §8, the code's own TODO) and aborts the run in period 0 whatever the
     events are — the shift relation presupposes an idle prefix that does not abort (`hidle` of run_shift_partial)"""
     return not any(st["kind"]["t"] == "cont" and float(I.num(st["kind"].get("min", 0))) > 1e-3 for st in sc["stations"])
+
+
+def _est_shift_ok(sc):
+    """SimpleRampdown reads Interface.last_applied_pilot_signals, which is `{}` while iteration - 1 <= 0 WHATEVER was
+    applied in period 0 (interface.py:359-360, DESIGN §8): a scenario whose first event is in period 0 is not
+    shift-invariant under the estimator; from period 1 on it is"""
+    fe = _first_event(sc)
+    return not _estimate(sc) or (fe is not None and fe >= 1)
 
 
 def _sorted_history(evs):
@@ -984,7 +1119,7 @@ def true_keys(sc, t, rows):
     st = {x["id"]: x for x in sc["stations"]}
     period = float(I.num(sc["period"]))
     out = []
-    for sid, station, arr, est, rem in rows:
+    for sid, station, arr, est, rem in (r_[:5] for r_ in rows):
         if sort in ("fcfs", "lcfs"):
             k = arr
         elif sort == "edf":
@@ -1014,6 +1149,24 @@ def key_gaps(sc, obs_run):
     return best, tied
 
 
+def rt_tied(obs_run):
+    """uninterrupted_charging: two sessions that can still receive charge have the same remaining_time in one
+    invocation (the key of the stable sort inside apply_minimum_charging_rate: the station order breaks the tie)"""
+    for _t, rows in obs_run.get("keys") or []:
+        live = [r_[5] for r_ in rows if len(r_) > 5 and r_[4] > 1e-9]
+        if len(set(live)) < len(live):
+            return True
+    return False
+
+
+def _uninterrupted(sc):
+    return bool(((sc.get("sched") or {}).get("opts") or {}).get("uninterrupted"))
+
+
+def _estimate(sc):
+    return bool(((sc.get("sched") or {}).get("opts") or {}).get("estimate"))
+
+
 def _tie_sensitive(case, obs):
     """a sorted scheduler whose TRUE sort key has a tie among sessions that are connected at the same time:
     statically (arrival / estimated departure of overlapping sessions) and, for every sort order incl. the
@@ -1022,6 +1175,11 @@ def _tie_sensitive(case, obs):
     so = sort_of(sc["sched"])
     if so is None:
         return False
+    if _uninterrupted(sc):
+        # the main sort starts from the remaining-time order (apply_minimum_charging_rate returns its queue), so a tie
+        # of the main key is broken alike in every registration order: only remaining_time ties are order-sensitive
+        # (run_equivariant_stations_sorted_uninterrupted)
+        return rt_tied(obs["base"])
     ss = sc["sessions"]
     if so[0] in ("fcfs", "lcfs", "edf"):
         arrival = so[0] != "edf"
@@ -1061,7 +1219,7 @@ def pair_relations(case, obs):
         res[name] = relation(obs[ref], obs[name], exact=(True if kept else exact), same_order=valid, error_partial=not kept)
         if res[name] and not kept:
             res[name].append(f"(station order after the JSON round trip: {obs[name]['station_ids']}, before: {obs[ref]['station_ids']})")
-    idle_ok = _idle_ok(sc)
+    idle_ok = _idle_ok(sc) and _est_shift_ok(sc)
     if valid:
         # bitwise: neither the station order nor the draw order changes
         res["sessions"] = relation(base, obs["sessions"], exact=True)
@@ -1148,6 +1306,22 @@ def features(case, obs):
         f.append(f"targeted:{sc['targeted']}")
     if (sc["sched"].get("opts") or {}).get("uninterrupted"):
         f.append("opt:uninterrupted")
+        if sort_of(sc["sched"]):
+            f.append("rt:tied" if rt_tied(obs["base"]) else "rt:distinct")
+    if _estimate(sc):
+        f.append("opt:estimate")
+        bb = obs["base"]
+        if any(abs(bb["rates"][s_][t_] - bb["pilots"][s_][t_]) > 1.0 for s_ in bb["rates"]
+               for t_ in range(min(len(bb["rates"][s_]), len(bb["pilots"][s_])))):
+            f.append("estimate:car_draws_less_than_pilot")
+        if not _est_shift_ok(sc):
+            f.append("shift:skipped(estimator reads absolute time, first event in period 0)")
+    if sc.get("abort"):
+        f.append(f"abort:{sc['abort']}")
+    if obs["base"]["err"] is not None:
+        f.append("aborted")
+        if obs["base"]["err"] in PILOT_ERRS and any(e_["delivered"] > 0 for e_ in obs["base"]["evs"].values()):
+            f.append("aborted:update_pilots_after_delivery")
     if case.get("allperms"):
         f.append("allperms")
     if obs["json_net"]["station_ids"] != sorted(obs["json_net"]["station_ids"]):
